@@ -865,6 +865,82 @@ func c19TransformCase(ctx *Ctx, v cty.Value, wlog []c19Visit) {
 		}
 	}
 
+	// transform-enter-replace: Enter answers a value of another null / unknown status than the member it was
+	// given: what is traversed is what Enter RETURNED (a known container is descended into, a null or unknown one
+	// is a leaf), the result is the rebuilt value, and nothing panics.  (A seeded change tested the member as it
+	// was BEFORE Enter: a replacement for a null member was not descended into, a null replacement for a known
+	// container panicked.)
+	for k := 0; k < 2; k++ {
+		tgt := wlog[ctx.R.Intn(len(wlog))]
+		if hasSetStep(v, tgt.p) {
+			continue
+		}
+		tu, _ := tgt.v.Unmark()
+		ty := tu.Type()
+		if ty == cty.DynamicPseudoType || !(ty.IsCollectionType() || ty.IsTupleType() || ty.IsObjectType()) {
+			continue
+		}
+		var repl cty.Value
+		if tu.IsNull() || !tu.IsKnown() {
+			repl = genVal(ctx.R, ty, 2, ValOpts{})
+			if !repl.IsKnown() || repl.IsNull() || !repl.Type().Equals(ty) {
+				continue
+			}
+		} else if k == 0 {
+			repl = cty.NullVal(ty)
+		} else {
+			repl = cty.UnknownVal(ty)
+		}
+		rule := c19Rule{at: encPath(tgt.p), act: "ret", val: repl}
+		log, _, res, outcome := transformReal(v, "full", []c19Rule{rule}, nil)
+		ctx.Eval("tenter "+vw+" "+rule.enc(), true)
+		ctx.Tag("transform:enter-replace")
+		glit := lit + " ; Enter " + rule.lit()
+		if !strings.HasPrefix(outcome, "ok ") {
+			ctx.Fail(Failure{Site: "transform-enter-replace", Sig: "failed:" + strings.SplitN(outcome, " ", 2)[0], What: "Enter replacing a member by a value of its own type (another null / unknown status) made the transform fail",
+				Input: vw + " " + rule.enc(), GoLit: glit, Outcome: outcome})
+			continue
+		}
+		var ref cty.Value
+		if pan, _ := try(func() { ref = c19RefReplace(v, nil, encPath(tgt.p), repl) }); pan {
+			continue
+		}
+		same := false
+		try(func() { same = res.RawEquals(ref) })
+		if !same && !c19OrderOnly(res, ref) {
+			ctx.Fail(Failure{Site: "transform-enter-replace", Sig: "result", What: "the result is not the value rebuilt with the member Enter returned",
+				Input: vw + " " + rule.enc(), GoLit: glit, Outcome: outcome + " expected " + encVal(ref)})
+			continue
+		}
+		// every node of the replacement must have been entered (paths below sets have no stable spelling: skipped)
+		want := map[string]bool{}
+		var collect func(x cty.Value, p cty.Path)
+		collect = func(x cty.Value, p cty.Path) {
+			want[encPath(p)] = true
+			xu, _ := x.Unmark()
+			if xu.IsKnown() && !xu.IsNull() && xu.Type().IsSetType() {
+				return
+			}
+			for _, kid := range c19Kids(x) {
+				collect(kid.v, append(p.Copy(), kid.step))
+			}
+		}
+		collect(repl, tgt.p.Copy())
+		seenE := map[string]bool{}
+		for _, e := range log {
+			if e.kind == "e" {
+				seenE[encPath(e.p)] = true
+			}
+		}
+		for pth := range want {
+			if !seenE[pth] {
+				ctx.Fail(Failure{Site: "transform-enter-replace", Sig: "member-of-replacement-not-entered", What: "a member of the value Enter returned was never passed to Enter",
+					Input: vw + " " + rule.enc() + " " + pth, GoLit: glit, Outcome: encLog(log)})
+				break
+			}
+		}
+	}
+
 	// arbitrary transformers
 	for k := 0; k < 3; k++ {
 		mk := func(n int) []c19Rule {
